@@ -346,7 +346,7 @@ func record(st *mc.Stats, scen string, in In, sampleIf bool) {
 var entryLabels = func() (out [3]map[string]string) {
 	for i := range out {
 		out[i] = map[string]string{}
-		for _, s := range []string{"source", "version", "dists", "options", "body", "blank-before-body", "blank-after-body", "maintainer", "date"} {
+		for _, s := range []string{"source", "version", "dists", "options", "option-separator", "body", "blank-before-body", "blank-after-body", "maintainer", "date"} {
 			out[i][s] = fmt.Sprintf("e%d.%s", i, s)
 		}
 	}
@@ -388,8 +388,8 @@ func treeDoc(c *dev, n int) (Doc, string) {
 	var between []int
 	for i := 0; i < n; i++ {
 		l := entryLabels[i]
-		ps = append(ps, Pick{Source: c.ask(len(altSource), l["source"]), Version: c.ask(2, l["version"]), Dists: c.ask(len(altDists), l["dists"]),
-			Opts: c.ask(len(altOpts), l["options"]), Body: c.ask(len(altBody), l["body"]), Before: c.ask(2, l["blank-before-body"]),
+		ps = append(ps, Pick{Source: c.ask(len(altSource), l["source"]), Version: c.ask(nVersion, l["version"]), Dists: c.ask(len(altDists), l["dists"]),
+			Opts: c.ask(len(altOpts), l["options"]), OptSep: c.ask(len(altOptSep), l["option-separator"]), Body: c.ask(len(altBody), l["body"]), Before: c.ask(2, l["blank-before-body"]),
 			After: c.ask(2, l["blank-after-body"]), Maint: c.ask(len(altMaint), l["maintainer"]), Date: c.ask(len(altDate), l["date"])})
 		if i < n-1 {
 			between = append(between, 1+c.ask(3, "blank-lines-between"))
@@ -416,7 +416,7 @@ func Run(r *mc.Run) {
 		"blank lines are empty lines; whitespace-only lines, CR LF and bytes outside the model's alphabets are not explored",
 	}
 	selfCheck(r)
-	k := r.Pick(3, 5)
+	k := r.Pick(3, 4)
 
 	// (a) choice tree
 	type shard struct {
@@ -439,8 +439,8 @@ func Run(r *mc.Run) {
 			}
 		}
 	}
-	r.Scenario("model-tree", map[string]interface{}{"entries": "1..3", "deviation_bound_k": k,
-		"per_entry_points": "source(2) version(2) distributions(2) options(2) body(4) blank-before(2) blank-after(2) maintainer(2) date(4)",
+	r.Scenario("model-tree", map[string]interface{}{"entries": "1..3", "deviation_bound_k": fmt.Sprintf("%d with whole delivery, %d with onebyte / smallbuf delivery", k, k-1),
+		"per_entry_points": fmt.Sprintf("source(%d) version(%d) distributions(%d) options(%d) option-separator(%d) body(%d) blank-before(2) blank-after(2) maintainer(%d) date(%d)", len(altSource), nVersion, len(altDists), len(altOpts), len(altOptSep), len(altBody), len(altMaint), len(altDate)),
 		"global_points":    "leading blank lines(0..2) blank lines between entries(1..3) trailing blank lines(0..2) final newline(present/absent)",
 		"apis":             apis, "delivery": "whole, onebyte, smallbuf(ParseOne only)",
 		"sharding": "executions partitioned by entry count, API, delivery and their first non-default answer"}, len(shards),
@@ -449,6 +449,12 @@ func Run(r *mc.Run) {
 			ok := true
 			cnt := 0
 			bound := k - 1
+			if sh.del != "whole" {
+				bound-- // delivery is reader plumbing, independent of the model: one deviation less
+			}
+			if bound < 0 && sh.firstPoint >= 0 {
+				return true
+			}
 			if sh.firstPoint < 0 {
 				bound = 0
 			}
@@ -471,18 +477,24 @@ func Run(r *mc.Run) {
 			return ok
 		})
 
-	// (b) full product for one entry
-	var picks []Pick
-	for s := range altSource {
-		for v := 0; v < 2; v++ {
-			for d := range altDists {
-				for o := range altOpts {
-					for b := range altBody {
-						for bb := 0; bb < 2; bb++ {
-							for ba := 0; ba < 2; ba++ {
-								for m := range altMaint {
-									for dt := range altDate {
-										picks = append(picks, Pick{s, v, d, o, b, bb, ba, m, dt})
+	// (b) products for one entry. The header, the body and the trailer are read by disjoint code, so the quick tier
+	// takes the full product of the header and trailer attributes (default body) and the full product of the body
+	// attributes with the distributions (default rest); the thorough tier takes the full product of everything.
+	full := func(bodies, befores, afters, sources, versions, dists, opts, seps, maints, dates int) []Pick {
+		var picks []Pick
+		for s := 0; s < sources; s++ {
+			for v := 0; v < versions; v++ {
+				for d := 0; d < dists; d++ {
+					for o := 0; o < opts; o++ {
+						for sp := 0; sp < seps; sp++ {
+							for b := 0; b < bodies; b++ {
+								for bb := 0; bb < befores; bb++ {
+									for ba := 0; ba < afters; ba++ {
+										for m := 0; m < maints; m++ {
+											for dt := 0; dt < dates; dt++ {
+												picks = append(picks, Pick{Source: s, Version: v, Dists: d, Opts: o, OptSep: sp, Body: b, Before: bb, After: ba, Maint: m, Date: dt})
+											}
+										}
 									}
 								}
 							}
@@ -491,17 +503,38 @@ func Run(r *mc.Run) {
 				}
 			}
 		}
+		return picks
 	}
-	r.Scenario("one-entry-product", map[string]interface{}{"entries": len(picks), "final_newline": "present, absent", "apis": apis, "delivery": "whole"}, len(picks),
-		func(i int, st *mc.Stats) bool {
-			for _, a := range apis {
-				for _, dmg := range []string{"", "no-final-newline"} {
-					st.Nontrivial++
-					record(st, "one-entry-product", In{Doc: mkDoc([]Pick{picks[i]}, 0, nil, 0), API: a, Delivery: "whole", Damage: dmg}, i == 2917 && a == "ParseOne")
+	product := func(name, what string, picks []Pick, dels bool) {
+		r.Scenario(name, map[string]interface{}{"entries": len(picks), "product_of": what, "final_newline": "present, absent", "apis": apis,
+			"delivery": map[bool]string{true: "whole, onebyte, smallbuf(ParseOne only)", false: "whole"}[dels]}, len(picks),
+			func(i int, st *mc.Stats) bool {
+				if i&1023 == 0 && r.Expired() {
+					return false
 				}
-			}
-			return true
-		})
+				for _, a := range apis {
+					ds := []string{"whole"}
+					if dels {
+						ds = deliveries(a)
+					}
+					for _, del := range ds {
+						for _, dmg := range []string{"", "no-final-newline"} {
+							st.Nontrivial++
+							record(st, name, In{Doc: mkDoc([]Pick{picks[i]}, 0, nil, 0), API: a, Delivery: del, Damage: dmg}, i == len(picks)*5/7 && a == "ParseOne" && dmg == "" && del == "whole")
+						}
+					}
+				}
+				return true
+			})
+	}
+	product("one-entry-header-trailer-product", "source x version x distributions x options x option separator x maintainer x date (default body)",
+		full(1, 1, 1, len(altSource), nVersion, len(altDists), len(altOpts), len(altOptSep), len(altMaint), len(altDate)), false)
+	product("one-entry-body-product", "body shape x blank lines before x blank lines after x distributions (default rest)",
+		full(len(altBody), 2, 2, 1, 1, len(altDists), 1, 1, 1, 1), true)
+	if !r.Quick() {
+		product("one-entry-full-product", "every attribute",
+			full(len(altBody), 2, 2, len(altSource), nVersion, len(altDists), len(altOpts), len(altOptSep), len(altMaint), len(altDate)), false)
+	}
 
 	// (c) damage of fixed documents
 	docs := fixedDocs()
